@@ -534,6 +534,7 @@ theorem stepOpSeq_limits (p : Bool) (toks : List Token) (st : SeqState) (op : Au
   | saveLoad j =>
     simp only [stepOpSeq]
     split <;> rfl
+  | loadSnap snap => rfl
 
 /-- With the repaired `Authorize`, an empty base world stays empty. -/
 theorem stepOpSeq_baseWorld (toks : List Token) (st : SeqState) (op : AuthOp)
@@ -555,6 +556,7 @@ theorem stepOpSeq_baseWorld (toks : List Token) (st : SeqState) (op : AuthOp)
     split
     · exact h
     · rfl
+  | loadSnap snap => exact h
 
 /-- Final state of a history (same recursion as `C13.finalState`). -/
 def seqFinal (p : Bool) (toks : List Token) : SeqState → List AuthOp → SeqState
